@@ -337,7 +337,9 @@ func (fx *fnExec) applyContract(dst *ssa.Call, ctr *FuncContract, name string, c
 		if !cl.inMode(fx.mode) || (portableOnly && !cl.Portable && !isModeNeutral(cl.E)) {
 			continue
 		}
-		fx.assume(fx.evalClause(cl, env))
+		if t, ok := fx.tryEvalCalleeClause(cl, env); ok {
+			fx.assume(t)
+		}
 	}
 	fx.runCallHooks(name, args, res, fx.curEnv(), where)
 }
@@ -661,4 +663,19 @@ func isModeNeutral(e Expr) bool {
 		return false
 	}
 	return false
+}
+
+// tryEvalCalleeClause: a postcondition that names variables local to the callee (its state at exit) says nothing a
+// caller can use: it is checked on the callee and skipped at call sites.
+func (fx *fnExec) tryEvalCalleeClause(cl Clause, env *SpecEnv) (t Term, ok bool) {
+	defer func() {
+		if r := recover(); r != nil {
+			if ve, isVE := r.(vcError); isVE && strings.Contains(ve.msg, "unknown identifier") {
+				ok = false
+				return
+			}
+			panic(r)
+		}
+	}()
+	return fx.evalClause(cl, env), true
 }
